@@ -45,6 +45,12 @@ var lateSolvers = []solverSpec{
 	{"z3/seed3", func(f string, t int) []string { return []string{"z3", fmt.Sprintf("-T:%d", t), "smt.random_seed=3", f} }},
 }
 
+// a third wave for queries still undecided after 15 s
+var lateSolvers2 = []solverSpec{
+	{"z3-new/seed4", func(f string, t int) []string { return []string{"z3-new", fmt.Sprintf("-T:%d", t), "smt.random_seed=4", f} }},
+	{"z3-new/seed5", func(f string, t int) []string { return []string{"z3-new", fmt.Sprintf("-T:%d", t), "smt.random_seed=5", "smt.arith.random_initial_value=true", f} }},
+}
+
 const lateAfter = 4 * time.Second
 
 func runSolver(ctx context.Context, s solverSpec, file string, timeoutS int) (string, string, int64) {
@@ -134,7 +140,7 @@ func Solve(o *Obligation, dir string, idx int, timeoutS int, thorough bool) *Sol
 	ctx, cancel := context.WithCancel(context.Background())
 	total := len(use)
 	if !expectSat {
-		total += len(lateSolvers)
+		total += len(lateSolvers) + len(lateSolvers2)
 	}
 	ch := make(chan r, total)
 	for _, s := range use {
@@ -153,6 +159,24 @@ func Solve(o *Obligation, dir string, idx int, timeoutS int, thorough bool) *Sol
 				case <-time.After(lateAfter):
 				}
 				rem := timeoutS - int(lateAfter/time.Second)
+				if rem < 5 {
+					rem = 5
+				}
+				st, out, _ := runSolver(ctx, s, file, rem)
+				ch <- r{st, out, s.name}
+			}(s)
+		}
+	}
+	if !expectSat {
+		for _, s := range lateSolvers2 {
+			go func(s solverSpec) {
+				select {
+				case <-ctx.Done():
+					ch <- r{"skipped", "", s.name}
+					return
+				case <-time.After(15 * time.Second):
+				}
+				rem := timeoutS - 15
 				if rem < 5 {
 					rem = 5
 				}
